@@ -4,7 +4,7 @@ namespace Capella.Pods
 variable {P : Params}
 
 theorem codec_html (hP : P.Lawful) (a : Str) (w : Bool) (s : Str)
-    (hv : htmlValid P s = true) :
+    (hv : htmlValid P s = true) (hst : P.xhtml = true → htmlStable P s = true) :
     CodecOk P ⟨.html, a, w⟩ (.str s) := by
   cases s with
   | nil =>
@@ -15,9 +15,13 @@ theorem codec_html (hP : P.Lawful) (a : Str) (w : Bool) (s : Str)
     | none => simp [htmlValid, hr] at hv
     | some x =>
       simp only [htmlValid, hr] at hv
-      have hidem := hP.repair_idem _ _ hr
       refine Or.inl ⟨rfl, by simp [neDefault], x, by simp [toXml, hr], hv, .str x, ?_, ?_⟩
-      · cases hx : P.xhtml <;> simp [fromXml, hx, hidem]
+      · cases hx : P.xhtml with
+        | false => simp [fromXml, hx]
+        | true =>
+          have hidem := hst hx
+          simp only [htmlStable, hr, decide_eq_true_eq] at hidem
+          simp [fromXml, hx, hidem]
       · simp [denote, hr]; exact Same.rfl' _
 
 theorem codec_float_fin (hP : P.Lawful) (a : Str) (w : Bool) (x : P.F) :
